@@ -73,6 +73,9 @@ type VSimAdminAction struct {
 	Omit      []string
 	MoveTo    int32
 	DelayMs   int
+	// Electing: with MoveTo, that many of the following metadata answers report no controller (-1): the
+	// election is still running when the client asks, although the role has already moved
+	Electing int
 }
 
 // VSimAdminEvent is one admin request with the answer it got.
@@ -323,6 +326,7 @@ func (s *VSim) dispatchAdmin(b *VSimBroker, connID int64, ctx *VSimReqCtx, req *
 	defer s.mu.Unlock()
 	if act.MoveTo != 0 {
 		s.controller = act.MoveTo
+		s.electing = act.Electing
 		s.logEvent("controller-moved", act.MoveTo, 0, map[string]interface{}{"from": ac.Controller, "on": ac.Kind, "n": ac.N})
 	}
 	ev.Controller = s.controller
